@@ -12,6 +12,21 @@ def run(tier, chk, pid):
     chk.add_tlc('MC_Slots(named components are views of numbered slots; all shapes, every write sequence over a small value set)', mc)
     if not mc.ok:
         raise C.ToolError('MC_Slots: the slot store design violates its own properties\n' + mc.out[-1500:])
+    # unbounded complement (TLAPS, SMT back end): the write/read, aliasing and symmetry laws for ALL integer component values
+    import re, shutil, subprocess
+    pw = C.work_dir('tlaps')
+    for f in ('Slots.tla', 'Slots_proofs.tla'):
+        shutil.copy(os.path.join(C.SPEC, f), pw)
+    try:
+        pr = subprocess.run(['tlapm', 'Slots_proofs.tla'], cwd=pw, stdout=subprocess.PIPE, stderr=subprocess.STDOUT, timeout=600)
+        pout = pr.stdout.decode(errors='replace')
+    except (subprocess.TimeoutExpired, FileNotFoundError) as ex:
+        pr, pout = None, str(ex)
+    m = re.search(r'All (\d+) obligations? proved', pout)
+    if m:
+        chk.layer('S.proofs', tlaps_obligations_proved=int(m.group(1)), note='Slots_proofs.tla: SlotInRange, WriteReadAll, SymmetricReadsAll, AliasAll, EmbedSymmetric over all integer values (tlapm, SMT)')
+    else:
+        raise C.ToolError('tlapm did not prove Slots_proofs.tla:\n' + pout[-1500:])
     exe = C.compile_cxx('slots', [os.path.join(C.HARNESS, 'slots.cpp')], flags=['-std=c++17', '-O1', '-fno-fast-math', '-w'], timeout=1200)
     wd = C.work_dir('slots')
     out = C.run([exe, str(C.SEED), '400' if thorough else '60'], timeout=600).stdout.decode()
